@@ -23,14 +23,15 @@ func c15R3(c *Ctx, rule string, u *c15Upd) {
 		return
 	}
 	for pi, p := range u.passes {
-		head, body, _, ok := u.g.RangeLoop(p.rs)
+		pg := p.g
+		head, body, _, ok := pg.RangeLoop(p.rs)
 		if !ok {
 			continue
 		}
 		// the intersection stores of this pass
 		stores := map[int]bool{}
 		why := "no assignment <remote>.RTCPFeedback = rtcpFeedbackIntersection(<local>.RTCPFeedback, <remote>.RTCPFeedback) in this pass"
-		for _, n := range u.g.Nodes {
+		for _, n := range pg.Nodes {
 			as, ok := n.Ast.(*ast.AssignStmt)
 			if !ok || len(as.Lhs) != len(as.Rhs) {
 				continue
@@ -65,11 +66,11 @@ func c15R3(c *Ctx, rule string, u *c15Upd) {
 				continue
 			}
 			// within one iteration: from the body entry, avoiding the stores and not re-entering the loop head, the add must be unreachable
-			reach := u.g.Reach([]int{body}, func(n int) bool { return stores[n] || n == head }, nil)
+			reach := pg.Reach([]int{body}, func(n int) bool { return stores[n] || n == head }, nil)
 			// the store must also come after the match call (localCodec is this iteration's match)
 			afterMatch := true
 			for s := range stores {
-				rr := u.g.Reach([]int{body}, func(n int) bool { return n == p.defNode || n == head }, nil)
+				rr := pg.Reach([]int{body}, func(n int) bool { return n == p.defNode || n == head }, nil)
 				if rr[s] && s != p.defNode {
 					afterMatch = false
 				}
@@ -692,119 +693,10 @@ func c15R5(c *Ctx, rule string) {
 		return
 	}
 	needle, hay := sig.Params().At(0), sig.Params().At(1)
-	// side of an expression: "needle", "hay:<var>" (element variable of the haystack) or ""
-	sideOf := func(e ast.Expr) (string, *types.Var) {
-		lv := pv.Leaves(e)
-		if len(lv) != 1 {
-			return "", nil
-		}
-		for _, lf := range lv {
-			if lf.Kind != "param" {
-				return "", nil
-			}
-			if lf.Var == needle {
-				return "needle", nil
-			}
-			if lf.Var == hay {
-				return "hay", c15RootVar(info, e)
-			}
-		}
-		return "", nil
-	}
-	// parsed(e): e is (a variable defined only as) fmtp.Parse(x.MimeType, x.ClockRate, x.Channels, x.SDPFmtpLine) with all four from one side
-	var parsedSide func(e ast.Expr, depth int) (string, *types.Var)
-	parsedSide = func(e ast.Expr, depth int) (string, *types.Var) {
-		e = ast.Unparen(e)
-		if call, ok := e.(*ast.CallExpr); ok && core.IsCallTo(info, call, parse.Obj) && len(call.Args) == 4 {
-			want := []*types.Var{mimeF, clockF, chanF, fmtpF}
-			s0, v0 := "", (*types.Var)(nil)
-			for i, a := range call.Args {
-				if core.FieldOf(info, a) != want[i] {
-					return "", nil
-				}
-				s, v := sideOf(a)
-				if s == "" || (i > 0 && (s != s0 || v != v0)) {
-					return "", nil
-				}
-				s0, v0 = s, v
-			}
-			return s0, v0
-		}
-		if v := core.VarOf(info, e); v != nil && depth < 3 {
-			defs := pv.DefExprs(v)
-			if len(defs) != 1 || defs[0] == nil {
-				return "", nil
-			}
-			return parsedSide(defs[0], depth+1)
-		}
-		return "", nil
-	}
-	// the exact test: X.Match(Y) on the FMTP interface with one side the needle, the other a haystack element
-	matchTest := func(e ast.Expr) *types.Var {
-		call, ok := ast.Unparen(e).(*ast.CallExpr)
-		if !ok || len(call.Args) != 1 {
-			return nil
-		}
-		sel, ok := ast.Unparen(call.Fun).(*ast.SelectorExpr)
-		if !ok || sel.Sel.Name != "Match" {
-			return nil
-		}
-		fn := core.Callee(info, call)
-		if fn == nil || fn.Pkg() == nil || fn.Pkg().Path() != core.ModPath+"/internal/fmtp" {
-			return nil
-		}
-		s1, v1 := parsedSide(sel.X, 0)
-		s2, v2 := parsedSide(call.Args[0], 0)
-		switch {
-		case s1 == "needle" && s2 == "hay":
-			return v2
-		case s1 == "hay" && s2 == "needle":
-			return v1
-		}
-		return nil
-	}
-	// the three partial tests
-	partialTest := func(e ast.Expr, which string) *types.Var {
-		call, ok := ast.Unparen(e).(*ast.CallExpr)
-		if !ok {
-			return nil
-		}
-		fn := core.Callee(info, call)
-		if fn == nil {
-			return nil
-		}
-		var a, b ast.Expr
-		var f *types.Var
-		switch which {
-		case "mime":
-			if fn.Pkg() == nil || fn.Pkg().Path() != "strings" || fn.Name() != "EqualFold" || len(call.Args) != 2 {
-				return nil
-			}
-			a, b, f = call.Args[0], call.Args[1], mimeF
-		case "clock":
-			if fn != cre.Obj || len(call.Args) != 3 {
-				return nil
-			}
-			a, b, f = call.Args[1], call.Args[2], clockF
-		case "channels":
-			if fn != che.Obj || len(call.Args) != 3 {
-				return nil
-			}
-			a, b, f = call.Args[1], call.Args[2], chanF
-		}
-		if core.FieldOf(info, a) != f || core.FieldOf(info, b) != f {
-			return nil
-		}
-		s1, v1 := sideOf(a)
-		s2, v2 := sideOf(b)
-		switch {
-		case s1 == "needle" && s2 == "hay":
-			return v2
-		case s1 == "hay" && s2 == "needle":
-			return v1
-		}
-		return nil
-	}
+	z := &c15Fz{c: c, fi: fi, g: g, info: info, pv: pv, side: map[*types.Var]string{needle: "needle", hay: "hay"},
+		parse: parse.Obj, cre: cre.Obj, che: che.Obj, fields: []*types.Var{mimeF, clockF, chanF, fmtpF}}
+	matchTest := func(e ast.Expr) *types.Var { return z.test(e, "match", 0) }
+	partialTest := func(e ast.Expr, which string) *types.Var { return z.test(e, which, 0) }
 	assumeFalse := func(pred func(ast.Expr) bool) *core.CFResult {
 		cf := &core.ConstFlow{G: g, Assume: func(e ast.Expr, env core.CFEnv) (constant.Value, bool) {
 			if pred(e) {
@@ -946,4 +838,293 @@ func c15StripAddr(lv map[string]core.Leaf) map[string]core.Leaf {
 		}
 	}
 	return lv
+}
+
+// c15ParseHelperParam: fn is a module function all of whose returns are parse(p.F0, p.F1, p.F2, p.F3) for one
+// parameter p (never reassigned); returns p's index, else -1.
+func c15ParseHelperParam(c *Ctx, fn, parse *types.Func, fields []*types.Var) int {
+	fi := c.P.DeclOf(fn)
+	if fi == nil || fi.Decl.Body == nil {
+		return -1
+	}
+	info := fi.Pkg.TypesInfo
+	sig := fi.Obj.Type().(*types.Signature)
+	if sig.Results().Len() != 1 {
+		return -1
+	}
+	idx, nRet := -1, 0
+	bad := false
+	ast.Inspect(fi.Decl.Body, func(n ast.Node) bool {
+		switch s := n.(type) {
+		case *ast.FuncLit:
+			bad = true
+			return false
+		case *ast.AssignStmt:
+			for _, l := range s.Lhs {
+				if v := c15RootVar(info, l); v != nil {
+					for i := 0; i < sig.Params().Len(); i++ {
+						if sig.Params().At(i) == v {
+							bad = true // a parameter is modified
+						}
+					}
+				}
+			}
+		case *ast.ReturnStmt:
+			nRet++
+			if len(s.Results) != 1 {
+				bad = true
+				return true
+			}
+			call, ok := ast.Unparen(s.Results[0]).(*ast.CallExpr)
+			if !ok || !core.IsCallTo(info, call, parse) || len(call.Args) != len(fields) {
+				bad = true
+				return true
+			}
+			for k, a := range call.Args {
+				if core.FieldOf(info, a) != fields[k] {
+					bad = true
+					continue
+				}
+				root := c15RootVar(info, a)
+				j := -1
+				for i := 0; i < sig.Params().Len(); i++ {
+					if sig.Params().At(i) == root {
+						j = i
+					}
+				}
+				if j < 0 || (idx >= 0 && idx != j) {
+					bad = true
+				}
+				idx = j
+			}
+		}
+		return true
+	})
+	if bad || nRet == 0 {
+		return -1
+	}
+	return idx
+}
+
+// c15Fz recognises, inside one function, the tests that relate the needle to a haystack element:
+// "match" (fmtp.Parse(x).Match(fmtp.Parse(y))), "mime" (EqualFold of the mime types), "clock", "channels".
+// side says which parameters stand for the needle ("needle"), the haystack ("hay": its range elements are
+// candidates) or one haystack element ("hayelem"). A same-module boolean helper applied to (needle, element)
+// counts as test K when, inside the helper, assuming K false makes every return false (followed to depth 2).
+type c15Fz struct {
+	c      *Ctx
+	fi     *core.FuncInfo
+	g      *core.Graph
+	info   *types.Info
+	pv     *core.Prov
+	side   map[*types.Var]string
+	parse  *types.Func
+	cre    *types.Func
+	che    *types.Func
+	fields []*types.Var // MimeType, ClockRate, Channels, SDPFmtpLine
+	memo   map[ast.Expr]map[string]*types.Var
+}
+
+// sideOf: "needle", or "hay" with the variable holding the haystack element, or "".
+func (z *c15Fz) sideOf(e ast.Expr) (string, *types.Var) {
+	lv := z.pv.Leaves(e)
+	if len(lv) != 1 {
+		return "", nil
+	}
+	for _, lf := range lv {
+		if lf.Kind != "param" {
+			return "", nil
+		}
+		switch z.side[lf.Var] {
+		case "needle":
+			return "needle", nil
+		case "hay":
+			return "hay", c15RootVar(z.info, e)
+		case "hayelem":
+			return "hay", lf.Var
+		}
+	}
+	return "", nil
+}
+
+// parsedSide: e is (a variable defined only as) fmtp.Parse(x.MimeType, x.ClockRate, x.Channels, x.SDPFmtpLine), or a helper doing that for one parameter.
+func (z *c15Fz) parsedSide(e ast.Expr, depth int) (string, *types.Var) {
+	info := z.info
+	e = ast.Unparen(e)
+	if call, ok := e.(*ast.CallExpr); ok && core.IsCallTo(info, call, z.parse) && len(call.Args) == 4 {
+		s0, v0 := "", (*types.Var)(nil)
+		for i, a := range call.Args {
+			if core.FieldOf(info, a) != z.fields[i] {
+				return "", nil
+			}
+			s, v := z.sideOf(a)
+			if s == "" || (i > 0 && (s != s0 || v != v0)) {
+				return "", nil
+			}
+			s0, v0 = s, v
+		}
+		return s0, v0
+	}
+	if v := core.VarOf(info, e); v != nil && depth < 3 {
+		defs := z.pv.DefExprs(v)
+		if len(defs) != 1 || defs[0] == nil {
+			return "", nil
+		}
+		return z.parsedSide(defs[0], depth+1)
+	}
+	if call, ok := e.(*ast.CallExpr); ok && depth < 3 {
+		if j := c15ParseHelperParam(z.c, core.Callee(info, call), z.parse, z.fields); j >= 0 && j < len(call.Args) {
+			if core.VarOf(info, call.Args[j]) != nil {
+				return z.sideOf(call.Args[j])
+			}
+		}
+	}
+	return "", nil
+}
+
+func c15Pair(s1 string, v1 *types.Var, s2 string, v2 *types.Var) *types.Var {
+	switch {
+	case s1 == "needle" && s2 == "hay":
+		return v2
+	case s1 == "hay" && s2 == "needle":
+		return v1
+	}
+	return nil
+}
+
+// test returns the haystack-element variable that e tests against the needle with test `kind` (nil: e is not such a test).
+func (z *c15Fz) test(e ast.Expr, kind string, depth int) *types.Var {
+	if z.memo == nil {
+		z.memo = map[ast.Expr]map[string]*types.Var{}
+	}
+	if m, ok := z.memo[e]; ok {
+		if v, ok := m[kind]; ok {
+			return v
+		}
+	} else {
+		z.memo[e] = map[string]*types.Var{}
+	}
+	v := z.test1(e, kind, depth)
+	z.memo[e][kind] = v
+	return v
+}
+
+func (z *c15Fz) test1(e ast.Expr, kind string, depth int) *types.Var {
+	info := z.info
+	call, ok := ast.Unparen(e).(*ast.CallExpr)
+	if !ok {
+		return nil
+	}
+	fn := core.Callee(info, call)
+	if fn == nil {
+		return nil
+	}
+	switch kind {
+	case "match":
+		if sel, ok := ast.Unparen(call.Fun).(*ast.SelectorExpr); ok && sel.Sel.Name == "Match" && len(call.Args) == 1 &&
+			fn.Pkg() != nil && fn.Pkg().Path() == core.ModPath+"/internal/fmtp" {
+			s1, v1 := z.parsedSide(sel.X, 0)
+			s2, v2 := z.parsedSide(call.Args[0], 0)
+			return c15Pair(s1, v1, s2, v2)
+		}
+	case "mime", "clock", "channels":
+		var a, b ast.Expr
+		var f *types.Var
+		switch {
+		case kind == "mime" && fn.Pkg() != nil && fn.Pkg().Path() == "strings" && fn.Name() == "EqualFold" && len(call.Args) == 2:
+			a, b, f = call.Args[0], call.Args[1], z.fields[0]
+		case kind == "clock" && fn == z.cre && len(call.Args) == 3:
+			a, b, f = call.Args[1], call.Args[2], z.fields[1]
+		case kind == "channels" && fn == z.che && len(call.Args) == 3:
+			a, b, f = call.Args[1], call.Args[2], z.fields[2]
+		}
+		if a != nil {
+			if core.FieldOf(info, a) != f || core.FieldOf(info, b) != f {
+				return nil
+			}
+			s1, v1 := z.sideOf(a)
+			s2, v2 := z.sideOf(b)
+			return c15Pair(s1, v1, s2, v2)
+		}
+	}
+	// a boolean helper of the module applied to the needle and one haystack element
+	hfi := z.c.P.DeclOf(fn)
+	if hfi == nil || hfi.Decl.Body == nil || depth >= 2 || hfi == z.fi {
+		return nil
+	}
+	hsig := hfi.Obj.Type().(*types.Signature)
+	if hsig.Results().Len() != 1 || !isBoolT(hsig.Results().At(0).Type()) || hsig.Recv() != nil || hsig.Variadic() || len(call.Args) != hsig.Params().Len() {
+		return nil
+	}
+	child := &c15Fz{c: z.c, fi: hfi, g: z.c.P.GraphOf(hfi), info: hfi.Pkg.TypesInfo, pv: core.NewProv(z.c.P, hfi), side: map[*types.Var]string{},
+		parse: z.parse, cre: z.cre, che: z.che, fields: z.fields}
+	var elem *types.Var
+	nNeedle := 0
+	for i, a := range call.Args {
+		if core.VarOf(info, a) == nil {
+			if tv := info.Types[a]; tv.Value != nil {
+				continue
+			}
+			return nil
+		}
+		s, v := z.sideOf(a)
+		switch s {
+		case "needle":
+			child.side[hsig.Params().At(i)] = "needle"
+			nNeedle++
+		case "hay":
+			if v == nil || core.VarOf(info, a) != v || (elem != nil && elem != v) {
+				return nil // the haystack itself, or two different elements
+			}
+			elem = v
+			child.side[hsig.Params().At(i)] = "hayelem"
+		default:
+			return nil
+		}
+	}
+	if elem == nil || nNeedle == 0 {
+		return nil
+	}
+	// inside the helper: assuming the test false, every return must be false
+	found := false
+	ast.Inspect(hfi.Decl.Body, func(n ast.Node) bool {
+		if x, ok := n.(ast.Expr); ok && child.test(x, kind, depth+1) != nil {
+			found = true
+		}
+		return true
+	})
+	if !found {
+		return nil
+	}
+	cf := &core.ConstFlow{G: child.g, Assume: func(x ast.Expr, env core.CFEnv) (constant.Value, bool) {
+		if child.test(x, kind, depth+1) != nil {
+			return constant.MakeBool(false), true
+		}
+		return nil, false
+	}}
+	res := cf.Run(child.g.Entry, core.CFEnv{})
+	z.c.R.Cells += res.States
+	nRet := 0
+	for _, rn := range child.g.Returns() {
+		ret := child.g.Nodes[rn].Ast.(*ast.ReturnStmt)
+		for _, env := range res.Reached[rn] {
+			nRet++
+			if len(ret.Results) != 1 {
+				return nil
+			}
+			v, ok := cf.Eval(ret.Results[0], env)
+			if !ok || v.Kind() != constant.Bool || constant.BoolVal(v) {
+				return nil
+			}
+		}
+	}
+	if nRet == 0 {
+		return nil
+	}
+	return elem
+}
+
+func isBoolT(t types.Type) bool {
+	b, ok := t.Underlying().(*types.Basic)
+	return ok && b.Info()&types.IsBoolean != 0
 }
